@@ -757,6 +757,8 @@ func checkSchemaKeywords(c *Ctx, r *Report, fields []cfgField) {
 func plainFieldValue(pa *provAnalysis, v ssa.Value, fn *ssa.Function, depth int) bool {
 	v = stripConv(v)
 	switch x := v.(type) {
+	case *ssa.Const:
+		return true // a default spelled in the code
 	case *ssa.UnOp:
 		if x.Op != token.MUL {
 			return false
@@ -807,6 +809,42 @@ func plainFieldValue(pa *provAnalysis, v ssa.Value, fn *ssa.Function, depth int)
 		return true
 	case *ssa.FreeVar:
 		return true // a captured variable: not followed, assumed to hold the field
+	case *ssa.Call:
+		// a module helper that hands the field (or a constant fallback, or
+		// one of its parameters) back unchanged
+		sc := x.Call.StaticCallee()
+		if sc == nil || len(sc.Blocks) == 0 || depth > 3 {
+			return false
+		}
+		if _, isMod := pa.c.SSAPkgs[pkgPathOf(sc)]; !isMod {
+			return false
+		}
+		n := 0
+		for _, b := range sc.Blocks {
+			ret, ok := b.Instrs[len(b.Instrs)-1].(*ssa.Return)
+			if !ok || len(ret.Results) != 1 {
+				continue
+			}
+			n++
+			res := retResults(ret)[0]
+			if _, isK := res.(*ssa.Const); isK {
+				continue
+			}
+			if !plainFieldValue(pa, res, sc, depth+1) {
+				return false
+			}
+		}
+		return n > 0
 	}
 	return false
+}
+
+func pkgPathOf(fn *ssa.Function) string {
+	if fn.Pkg != nil {
+		return fn.Pkg.Pkg.Path()
+	}
+	if p := fn.Parent(); p != nil {
+		return pkgPathOf(p)
+	}
+	return ""
 }
